@@ -162,8 +162,8 @@ func genOps(t *rapid.T, c *Case) {
 			continue
 		}
 		limit := nVars
-		if limit < 10 && gen.Chance(t, 1, 4, "grow") {
-			limit = min(10, nVars+rapid.IntRange(1, 3).Draw(t, "by"))
+		if limit < 14 && gen.Chance(t, 1, 4, "grow") {
+			limit = min(14, nVars+rapid.IntRange(1, 3).Draw(t, "by"))
 		}
 		if limit < 1 {
 			limit = 1
@@ -248,6 +248,16 @@ func genCase(front string) func(t *rapid.T) Case {
 	return func(t *rapid.T) Case {
 		c := Case{Front: front}
 		switch front {
+		case "hard":
+			// a base with real conflicts (threshold 3-SAT / pigeonhole minus a pigeon): learned clauses and
+			// learned units exist when constraints are added
+			c.Front = "slicenb"
+			if rapid.Bool().Draw(t, "php") {
+				c.N, c.Clauses = gen.Pigeonhole(t, 3, true)
+			} else {
+				c.N = gen.Uniform(t, 10, 13, "n")
+				c.Clauses = gen.KSAT(t, c.N, c.N*gen.Uniform(t, 36, 43, "ratio")/10, 3)
+			}
 		case "slicenb":
 			c.N, c.Clauses = gen.SmallCNF(t, gen.CNFOpts{MinN: 1, MaxN: 8, MaxRatio: 2, MaxLen: 4, AllowEmpty: true, AllowDup: true, AllowUnit: true, UnusedVarSlack: true})
 		default:
@@ -276,6 +286,7 @@ func init() {
 	tail := "; history of 1..12 steps (Solve | AppendClause of a clause with possibly repeated/complementary literals | cardinality constraint 1<=k<=len | PB constraint with weights 1..4, k>=1), new variables up to 3 beyond the current maximum (total <=10), additions aimed with the harness's oracle (agreeing with / against a current model, entailed, contradictory); invariant after every Solve: verdict = truth table of base AND everything added, model satisfies it, Unsat is permanent; non-trivial = a Solve after an addition after a Solve"
 	vf.Register(
 		vf.Sub[Case]{Name: "cnf-base", Quick: 12000, Thorough: 150000, Gen: genCase("slicenb"), Check: check, Floor: 0.4, Rule: "base CNF via ParseSliceNb (n<=8)" + tail},
+		vf.Sub[Case]{Name: "conflict-rich-base", Quick: 1500, Thorough: 20000, Gen: genCase("hard"), Check: check, Floor: 0.4, Rule: "base = threshold 3-SAT at n 10..13 or a satisfiable pigeonhole formula (12 variables): the solver has learned clauses and units when constraints are added (variables up to 14)" + tail},
 		vf.Sub[Case]{Name: "card-base", Quick: 8000, Thorough: 100000, Gen: genCase("card"), Check: check, Floor: 0.4, Rule: "base cardinality problem via ParseCardConstrs" + tail},
 		vf.Sub[Case]{Name: "pb-base", Quick: 8000, Thorough: 100000, Gen: genCase("pb"), Check: check, Floor: 0.4, Rule: "base PB problem via ParsePBConstrs" + tail},
 	)
